@@ -332,6 +332,41 @@ pub struct ExploreCfg {
     /// an execution making more SAT calls than this is aborted (divergence guard)
     pub call_limit: usize,
     pub keep_models: bool,
+    /// set by the visitor to end the exploration of this case early (e.g. after its first violation)
+    pub stop: StopFlag,
+}
+
+/// a flag that is not shared between clones of a configuration
+#[derive(Debug, Default)]
+pub struct StopFlag(std::sync::atomic::AtomicBool);
+
+impl Clone for StopFlag {
+    fn clone(&self) -> Self {
+        StopFlag::default()
+    }
+}
+
+impl StopFlag {
+    pub fn set(&self, v: bool) {
+        self.0.store(v, std::sync::atomic::Ordering::Relaxed)
+    }
+    pub fn get(&self) -> bool {
+        self.0.load(std::sync::atomic::Ordering::Relaxed)
+    }
+}
+
+/// wall-clock budget of the whole run: explorations started after it return at once (flagged as
+/// capped); set by the driver from the tier
+pub static DEADLINE_EPOCH_S: std::sync::atomic::AtomicU64 = std::sync::atomic::AtomicU64::new(u64::MAX);
+
+pub fn past_deadline() -> bool {
+    let d = DEADLINE_EPOCH_S.load(std::sync::atomic::Ordering::Relaxed);
+    d != u64::MAX && std::time::SystemTime::now().duration_since(std::time::UNIX_EPOCH).map(|t| t.as_secs() > d).unwrap_or(false)
+}
+
+pub fn set_deadline_in(secs: u64) {
+    let now = std::time::SystemTime::now().duration_since(std::time::UNIX_EPOCH).map(|t| t.as_secs()).unwrap_or(0);
+    DEADLINE_EPOCH_S.store(now + secs, std::sync::atomic::Ordering::Relaxed);
 }
 
 impl Default for ExploreCfg {
@@ -344,6 +379,7 @@ impl Default for ExploreCfg {
             max_execs: 20_000,
             call_limit: 10_000,
             keep_models: false,
+            stop: StopFlag::default(),
         }
     }
 }
@@ -398,7 +434,7 @@ pub fn explore<O>(
     let mut stats = ExploreStats::default();
     let mut stack: Vec<(Vec<usize>, Vec<usize>)> = vec![(vec![], vec![])];
     while let Some((prefix, expect)) = stack.pop() {
-        if stats.execs >= cfg.max_execs {
+        if stats.execs >= cfg.max_execs || cfg.stop.get() || past_deadline() {
             stats.exec_capped = true;
             break;
         }
